@@ -7,6 +7,8 @@ mkdir -p build evidence replays
 build() { local out="$1" tags="$2"; shift 2; (cd harness && go build -tags "$tags" "$@" -o "../build/$out" ./cmd/vcheck); }
 build vcheck verif || exit 1
 build vcheck-purego "verif purego" || echo "setup: purego variant does not build (C20 will report it)"
+build vcheck-race verif -race || echo "setup: race variant does not build"
+(cd harness && GOARCH=386 CGO_ENABLED=0 go build -tags verif -o ../build/vcheck-386 ./cmd/vcheck) || echo "setup: 386 variant does not build"
 ID=C13
 . scripts/sched-variant.sh || true
 (cd harness && go vet ./core ./ref/... >/dev/null 2>&1 || true)
